@@ -448,11 +448,63 @@ def run_culture_state(ctx, rounds):
     ctx.sample({"kind": "culture-state", "rounds": rounds})
 
 
+def run_provider_state(ctx, rounds):
+    """A caching provider over a user-written source (which may, as the source contract allows, answer an alias with a zone carrying the canonical
+    id, and build a new object per call): repeated lookups give one object and ask the source once; what any id answers does not depend on which
+    other ids were asked before, in any order."""
+    from pyoda_time import DateTimeZone, Instant, Offset
+    from pyoda_time.testing.time_zones import SingleTransitionDateTimeZone
+    from pyoda_time.time_zones import DateTimeZoneCache, IDateTimeZoneSource
+    rng = ctx.rng
+
+    class Src(IDateTimeZoneSource):
+        def __init__(self, ids, aliases): self._ids = list(ids); self._al = dict(aliases); self.requests = []
+        @property
+        def version_id(self): return "vf-source 1"
+        def get_ids(self): return list(self._ids)
+        def for_id(self, id_):
+            self.requests.append(id_)
+            return SingleTransitionDateTimeZone(Instant.from_utc(2000, 1, 1, 0, 0), Offset.from_hours(1), Offset.from_hours(2), self._al.get(id_, id_))
+        def get_system_default_id(self): return None
+
+    def outcome(p, i):
+        try:
+            z = p.get_zone_or_none(i)
+            return None if z is None else ("zone", z.id)
+        except Exception as e:  # noqa: BLE001
+            return ("raised", type(e).__name__)
+    for r in range(rounds):
+        k = rng.randint(2, 5)
+        canon = [f"New/C{j}" for j in range(k)]; alias = {f"Old/A{j}": rng.choice(canon) for j in range(rng.randint(1, 4))}
+        advertised = list(alias) + [c for c in canon if rng.random() < 0.6] + ["Other/Zone"]
+        asks = [rng.choice(list(alias) + canon + ["Other/Zone", "Not/There"]) for _ in range(rng.randint(4, 12))]
+        # reference: every id asked of a FRESH provider (no history)
+        ref = {i: outcome(DateTimeZoneCache(Src(advertised, alias)), i) for i in set(asks)}
+        src = Src(advertised, alias); prov = DateTimeZoneCache(src); seen = {}
+        for n_, i in enumerate(asks):
+            ctx.ev(); ctx.counters["provider_state_lookups"] += 1; ctx.key(("provider-state", i in alias, i in advertised, i in seen))
+            got = outcome(prov, i)
+            case = {"kind": "provider", "asks": asks[:n_ + 1], "advertised": advertised, "aliases": alias}
+            if got != ref[i]:
+                ctx.V("C13:provider-answer-depends-on-history", f"a caching provider over a user-written source answers {got} for {i!r} after the lookups {asks[:n_]}; a fresh provider answers {ref[i]}", case, got, ref[i])
+                break
+            if got is not None and got[0] == "zone":
+                z = prov[i]
+                if i in seen and seen[i] is not z:
+                    ctx.V("C13:provider-lookup-not-cached", f"repeated lookups of {i!r} returned different zone objects (lookups so far: {asks[:n_ + 1]})", case)
+                    break
+                seen[i] = z
+        dup = [i for i in set(src.requests) if src.requests.count(i) > 1]
+        if dup:
+            ctx.V("C13:provider-asks-source-again", f"the source was asked {src.requests.count(dup[0])} times for {dup[0]!r} by one caching provider (lookups: {asks})", {"kind": "provider", "asks": asks, "aliases": alias})
+    ctx.sample({"kind": "provider-state", "rounds": rounds})
+
+
 def run(ctx, shard):
     for k in REQUIRED["any"] + ["yield_callbacks", "distinct_interleavings"]:
         ctx.counters.setdefault(k, 0)
     if shard["part"] == "culture":
-        run_culture_state(ctx, shard["rounds"]); return
+        run_culture_state(ctx, shard["rounds"]); run_provider_state(ctx, shard["rounds"] * 3); return
     if shard["part"] == "periods":
         run_periods(ctx, shard["i"], shard["k"], shard["probes"]); return
     if shard["part"] == "history":
